@@ -28,9 +28,9 @@ def part_cooc(ctx):
             for r in (1, 2)]
     items = cooc_gen.emit(ctx, V, ctx.pick(4, 5), 2, cfgs, "Cooc: transform corpora with unseen tokens",
                           extra_constants=dict(Prunes=c14.tla_prunes(ps)))
-    if len(items) > ctx.pick(3000, 40000):
+    if len(items) > ctx.pick(1500, 40000):
         ctx.exhaustive = False
-        items = rng.sample(items, ctx.pick(3000, 40000))
+        items = rng.sample(items, ctx.pick(1500, 40000))
     for it in items:
         pr = ps[it["pi"] - 1]
         # the unseen tokens play the role of the excluded set of the specification: the model is fitted on a corpus that
@@ -82,6 +82,7 @@ PARTS = [("cooc", part_cooc), ("ngram", c06.part_ngram), ("skipgram", c06.part_s
 
 
 def run(ctx):
+    ctx.scale = 0.3 if ctx.quick else 1.0      # the family parts run in full under their own property
     for name, fn in PARTS:
         if ctx.only and name not in ctx.only:
             continue
